@@ -14,6 +14,8 @@ def main():
     if "--tier" in sys.argv:
         tier = sys.argv[sys.argv.index("--tier") + 1]
     skip_tests = "--skip-tests" in sys.argv
+    # --with <ID>: additionally run another property's check against the change (recorded separately as cross_check)
+    cross = sys.argv[sys.argv.index("--with") + 1] if "--with" in sys.argv else None
     wt = tempfile.mkdtemp(prefix=f"ev_{pid}{var}_", dir="/tmp")
     os.rmdir(wt)
     meta = {"property": pid, "variant": var, "tier_run": tier}
@@ -45,19 +47,32 @@ def main():
         meta["check_output"] = [l[:400] for l in lines[:12]]
         meta["detected"] = rc == 1
         shutil.rmtree(outdir, ignore_errors=True)
+        if cross:
+            outdir = tempfile.mkdtemp(prefix="seedout_", dir="/tmp")
+            env2 = dict(os.environ, VERIF_REPO=wt, VERIF_OUT=outdir, VERIF_NO_XCHECK="1")
+            rc, out = sh(f"/verif/check {cross} --tier {tier}", env=env2, timeout=7200)
+            lines = [l for l in out.splitlines() if l.startswith(("VIOLATION", "  signature", "KNOWN", "INCONCLUSIVE", "[C"))]
+            meta["cross_check"] = {"property": cross, "exit": rc, "detected": rc == 1, "output": [l[:400] for l in lines[:6]]}
+            shutil.rmtree(outdir, ignore_errors=True)
     finally:
         sh(f"git -C /repo worktree remove --force {wt}")
         shutil.rmtree(wt, ignore_errors=True)
     dst = f"/verif/seeded/{pid}-{var}"
     os.makedirs(dst, exist_ok=True)
     for f in ("patch.diff", "demo.py", "notes.md"):
-        if os.path.exists(os.path.join(src, f)):
+        if os.path.exists(os.path.join(src, f)) and os.path.abspath(src) != os.path.abspath(dst):
             shutil.copy(os.path.join(src, f), os.path.join(dst, f))
     meta["needs_to_manifest"] = open(os.path.join(src, "notes.md")).read()[:1500] if os.path.exists(os.path.join(src, "notes.md")) else ""
     meta["confirmed"] = bool(meta.get("patch_applies") and meta.get("demo_on_original_exit") == 0 and meta.get("demo_with_change_exit", 0) != 0
                              and (skip_tests or any("230 passed" in l for l in meta.get("tests_with_change", []))))
     meta["what_i_ran"] = "scratch worktree of /repo HEAD: demo on original, git apply patch, demo with change, full pytest suite; then " \
                          f"VERIF_REPO=<worktree> ./check {pid} --tier {tier}; worktree removed"
+    if skip_tests and os.path.exists(os.path.join(dst, "meta.json")):
+        old = json.load(open(os.path.join(dst, "meta.json")))
+        meta["tests_with_change"] = old.get("tests_with_change")
+        meta["first_pass"] = old.get("first_pass") or {"check_exit": old.get("check_exit"), "detected": old.get("detected"), "check_output": old.get("check_output", [])[:3]}
+        meta["confirmed"] = bool(meta.get("patch_applies") and meta.get("demo_on_original_exit") == 0 and meta.get("demo_with_change_exit", 0) != 0
+                                 and any("230 passed" in l for l in (meta.get("tests_with_change") or [])))
     json.dump(meta, open(os.path.join(dst, "meta.json"), "w"), indent=1)
     print(pid, var, "confirmed" if meta["confirmed"] else "NOT-CONFIRMED", "detected" if meta.get("detected") else f"missed(exit {meta.get('check_exit')})",
           meta.get("check_wall_s"), meta.get("tests_with_change"))
